@@ -11,12 +11,13 @@
 (* REFERENCE DATA.  The table below is the list of named colours of CSS    *)
 (* Color Module Level 4, section 6.1 (the 147 SVG 1.1 keywords plus        *)
 (* rebeccapurple = 148 names; sRGB, 8 bits per channel).  Provenance: it   *)
-(* was typed in from the W3C table as name + hex value, independently of   *)
-(* the tree under test, and converted to decimal by a script; it was then  *)
-(* compared with /repo/codegen/res/svg_colors.txt (148 names, no           *)
-(* difference) and with X11's rgb.txt (agrees on all names X11 has except  *)
-(* the four where CSS deliberately differs from X11: gray/grey, green,     *)
-(* maroon, purple).  It is never read from the code.                       *)
+(* was written down as name + hex value from the W3C table as the author   *)
+(* of this specification knows it, NOT copied from the tree under test,    *)
+(* and converted to decimal by a script; it was then compared with         *)
+(* /repo/codegen/res/svg_colors.txt (148 names, no difference) and with    *)
+(* X11's rgb.txt (agrees on every name that file has, except the four      *)
+(* where CSS deliberately differs from X11: gray/grey, green, maroon,      *)
+(* purple).  It is never read from the code.                               *)
 (*                                                                         *)
 (* Lookup is by the exact lower-case name only: no case folding, no        *)
 (* trimming, no prefix matching.                                           *)
